@@ -436,6 +436,239 @@ def probe_guards(ver: str, rows: list[dict]) -> None:
             led['guard_mismatch'] = []
 
 
+# --------------------------------------------------------- tokenizer custom alternatives
+_class_cache: dict = {}
+
+
+def class_ranges(cls_src: str) -> list:
+    """code point ranges matched by a one-character regex class"""
+    import re
+    if cls_src not in _class_cache:
+        rx = re.compile(cls_src)
+        out, start = [], None
+        for c in range(0x110000 + 1):
+            ok = c < 0x110000 and rx.fullmatch(chr(c)) is not None
+            if ok and start is None:
+                start = c
+            elif not ok and start is not None:
+                out.append((start, c - 1))
+                start = None
+        _class_cache[cls_src] = out
+    return _class_cache[cls_src]
+
+
+def first_set(nodes) -> tuple[set, bool]:
+    """over-approximation of the FIRST set of a parsed regex sequence and whether it can match without
+    consuming/inspecting a character (sre parse tree)"""
+    try:
+        import re._constants as sc
+    except ImportError:              # Python < 3.11
+        import sre_constants as sc
+    acc: set = set()
+    for op, arg in nodes:
+        name = str(op)
+        if name == 'LITERAL':
+            return acc | {arg}, False
+        if name == 'IN':
+            f = set()
+            for iop, iarg in arg:
+                iname = str(iop)
+                if iname == 'LITERAL':
+                    f.add(iarg)
+                elif iname == 'RANGE':
+                    f |= set(range(iarg[0], iarg[1] + 1))
+                elif iname == 'CATEGORY' and str(iarg) == 'CATEGORY_SPACE':
+                    f |= {r for lo, hi in class_ranges(r'\s') for r in range(lo, hi + 1)}
+                else:
+                    raise ValueError(f'unsupported class item {iop} {iarg}')
+            return acc | f, False
+        if name in ('MAX_REPEAT', 'MIN_REPEAT'):
+            lo, hi, sub = arg
+            f, nullable = first_set(sub)
+            acc |= f
+            if lo > 0 and not nullable:
+                return acc, False
+            continue
+        if name == 'SUBPATTERN':
+            f, nullable = first_set(arg[-1])
+            acc |= f
+            if not nullable:
+                return acc, False
+            continue
+        if name == 'BRANCH':
+            nullable_any = False
+            for alt in arg[1]:
+                f, nullable = first_set(alt)
+                acc |= f
+                nullable_any |= nullable
+            if not nullable_any:
+                return acc, False
+            continue
+        if name == 'ASSERT':
+            direction, sub = arg
+            if direction == 1:
+                f, nullable = first_set(sub)
+                if not nullable:
+                    return acc | f, False
+            continue
+        if name in ('ASSERT_NOT', 'AT'):
+            continue
+        raise ValueError(f'unsupported regex node {op}')
+    return acc, True
+
+
+NC_HEAD = re_head = None
+
+
+def analyse_pattern(pat: str) -> dict:
+    """custom token pattern -> {'head': None | text, 'la': None | sorted first set, classes}"""
+    import re
+    try:
+        import re._parser as sp
+    except ImportError:
+        import sre_parse as sp
+    m = re.fullmatch(r'(\(\?<!\\\$\))?(\\b)?(?P<head>.*?)(?P<la>\(\?=.*\))?', pat, re.S)
+    head, la = m.group('head'), m.group('la')
+    g = re.fullmatch(r'(?P<start>\[\^\\d\\W\])(?P<chars>\[[^\]]*\])\*', head)
+    out = {'pattern': pat}
+    if g:
+        out['head'] = None
+        out['start_class'], out['char_class'] = g.group('start'), g.group('chars')
+    else:
+        parsed = sp.parse(head)
+        if not all(str(op) == 'LITERAL' for op, _ in parsed):
+            raise ValueError(f'head of custom pattern not understood: {head!r}')
+        out['head'] = [a for _, a in parsed]
+    if la is None:
+        out['la'] = None
+    else:
+        nodes = list(sp.parse(la))
+        if len(nodes) != 1 or str(nodes[0][0]) != 'ASSERT' or nodes[0][1][0] != 1:
+            raise ValueError(f'look-ahead not understood: {la!r}')
+        f, nullable = first_set(nodes[0][1][1])
+        if nullable:
+            raise ValueError(f'look-ahead can succeed at the end of the text: {la!r}')
+        out['la'] = sorted(f)
+    return out
+
+
+_alts_cache: dict = {}
+
+
+def alternatives() -> dict:
+    """per version: the custom alternatives of the tokenizer (sorted by pattern text) + the NCName classes"""
+    if not _alts_cache:
+        for v in VERSIONS:
+            P = parser_class(v)
+            pats = sorted({c.pattern for c in P.symbol_table.values() if c.pattern is not None})
+            alts, err = [], None
+            for pat in pats:
+                try:
+                    alts.append(analyse_pattern(pat))
+                except Exception as e:      # a shape the model does not describe
+                    err = f'{type(e).__name__}: {e}'
+                    alts.append({'pattern': pat, 'head': [0], 'la': None, 'unreadable': err})
+            starts = {a['start_class'] for a in alts if a.get('start_class')} or {r'[^\d\W]'}
+            chars = {a['char_class'] for a in alts if a.get('char_class')} or {r'[\w.\-]'}
+            _alts_cache[v] = {'alts': alts, 'error': err if err else (None if len(starts) == 1 and len(chars) == 1
+                                                                      else 'different NCName classes in one tokenizer'),
+                              'start_class': sorted(starts)[0], 'char_class': sorted(chars)[0]}
+    return _alts_cache
+
+
+def lean_alts() -> list[str]:
+    out = []
+    info = alternatives()
+    emitted = {}
+    for v in VERSIONS:
+        a = info[v]
+        for key, src in (('nameStart', a['start_class']), ('nameChar', a['char_class'])):
+            name = f'{key}_v{v}'
+            rngs = class_ranges(src)
+            out.append(f'def {name} : EPV.Lexer.Ranges := [' + ', '.join(f'({lo}, {hi})' for lo, hi in rngs) + ']')
+        out.append(f'def classes_v{v} : EPV.Lexer.Classes := ⟨nameStart_v{v}, nameChar_v{v}⟩')
+
+        def one(alt):
+            h = 'none' if alt['head'] is None else 'some ' + lean_list(alt['head'])
+            la = 'none' if alt['la'] is None else 'some ' + lean_list(alt['la'])
+            return f'  ⟨{h}, {la}⟩'
+        out.append(f'def alts_v{v} : List EPV.Lexer.Alt := [\n' + ',\n'.join(one(x) for x in a['alts']) + '\n]')
+        out.append('')
+    return out
+
+
+# ------------------------------------------------------------------ textual source tables
+def lexemes_of(ver: str, text: str) -> list[str]:
+    """lexemes of a text according to the live tokenizer"""
+    P = parser_class(ver)
+    return [m.group().strip() for m in P.tokenizer.finditer(text) if m.group().strip()]
+
+
+def lexeme_cls(ver: str, lx: str) -> str:
+    import re
+    a = alternatives()[base_of(ver)]
+    if lx[0] == "'":
+        return '.str'
+    if lx[0].isdigit():
+        return '.num'
+    if re.fullmatch(a['start_class'], lx[0]):
+        return '.word'
+    return '.sym'
+
+
+def lean_lexemes(ver: str, text: str) -> str:
+    return '[' + ', '.join(f'({lexeme_cls(ver, lx)}, {lean_list([ord(c) for c in lx])})' for lx in lexemes_of(ver, text)) + ']'
+
+
+def source_style(ver: str, row: dict) -> int:
+    """how `source` separates an infix symbol from its operands: 0 `l sym r`, 1 `lsymr`, 2 `lsym r` (probed)"""
+    if row['led']['kind'] != 'infix':
+        return 0
+    sym = row['sym']
+    for src in (f'n1 {sym} n2', f'$v1 {sym} n2', f'n1 {sym} 2'):
+        d, tok = impl_parse(ver, src)
+        if tok is not None and len(tok) == 2 and tok.symbol == sym:
+            try:
+                out = tok.source
+            except Exception:
+                continue
+            l, r = tok[0].source, tok[1].source
+            if out == f'{l} {sym} {r}':
+                return 0
+            if out == f'{l}{sym}{r}':
+                return 1
+            if out == f'{l}{sym} {r}':
+                return 2
+            return 9            # a shape the model does not describe: the text comparison will show it
+    return 0
+
+
+def lean_text_tables() -> list[str]:
+    import re
+    out = []
+    tabs = tables()
+    for v in VERSIONS:
+        rows = tabs[v]
+        P = parser_class(v)
+        namepat = P.name_pattern
+        syms2 = sorted(s for s in P.symbol_table if len(s) == 2 and namepat.match(s) is None
+                       and P.symbol_table[s].pattern is None and s not in ('(:', ':)') or s in ('(:', ':)') and s in P.symbol_table)
+        out.append(f'def textTbl_v{v} : EPV.Source.TextTbl where')
+        out.append('  sym o := ([' + ', '.join(lean_lexemes(v, TYPED_KEYWORD.get(r['sym'], r['sym'])) for r in rows) + '][o]?).getD []')
+        out.append('  style o := ([' + ', '.join(str(source_style(v, r)) for r in rows) + '][o]?).getD 0')
+        out.append('  close c := ([' + ', '.join(lean_lexemes(v, CLOSER_TEXT[c]) for c in (0, 1)) + '][c]?).getD []')
+        out.append('  ty n := ([' + ', '.join(lean_lexemes(v if v != '10' else '20', t) for t in TYPES) + '][n]?).getD []')
+        out.append('  syms2 := [' + ', '.join(f'({ord(s[0])}, {ord(s[1])})' for s in syms2) + ']')
+        # the fragment's texts are ASCII: the lexeme model uses the ASCII part of the NCName classes
+        a = alternatives()[v]
+        for key, src in (('wordStart', a['start_class']), ('wordChar', a['char_class'])):
+            rngs = [(lo, min(hi, 127)) for lo, hi in class_ranges(src) if lo < 128]
+            out.append(f'  {key} := [' + ', '.join(f'({lo}, {hi})' for lo, hi in rngs) + ']')
+        out.append('  digit := [(48, 57)]')
+        out.append('')
+    return out
+
+
 def lean_list(l) -> str:
     return '[' + ', '.join(str(x) for x in l) + ']'
 
@@ -483,7 +716,7 @@ def tables() -> dict[str, list[dict]]:
 def translate(run: Run) -> dict:
     tabs = tables()
     out = ['/- GENERATED by harness/c04.py from the live symbol tables of /repo -- do not edit -/',
-           'import EPV.Model.Pratt', 'namespace EPV.Gen.C04', 'open EPV.Pratt', '']
+           'import EPV.Model.Pratt', 'import EPV.Model.PrattLexer', 'import EPV.Model.PrattSource', 'namespace EPV.Gen.C04', 'open EPV.Pratt', '']
     info = {}
     for v, rows in tabs.items():
         out.append(f'def opTable_v{v} : List Row := [')
@@ -495,6 +728,17 @@ def translate(run: Run) -> dict:
                          'other_led': [r['sym'] for r in rows if r['led']['kind'] == 'other'],
                          'guard_mismatch': {r['sym']: r['led']['guard_mismatch'] for r in rows
                                             if r['led'].get('guard_mismatch')}}
+    out += lean_alts()
+    out += lean_text_tables()
+    # the rbp with which the nud of the unary lookup `?` parses its key (read from the ast of the nud)
+    for v in ('31', '31c'):
+        row = next((r for r in tabs[v] if r['sym'] == '?'), None)
+        ex = ((row or {}).get('nud', {}).get('ast') or {}).get('expr') or []
+        out.append(f'def unaryLookupRbp_v{v} : Nat := {ex[0] if len(ex) == 1 and ex[0] is not None else 0}')
+    out.append('')
+    for v, a in alternatives().items():
+        info[f'v{v}']['custom_alternatives'] = len(a['alts'])
+        info[f'v{v}']['alternatives_error'] = a['error']
     out.append('end EPV.Gen.C04')
     gen = LEAN / 'EPV' / 'Gen' / 'C04Tables.lean'
     gen.parent.mkdir(exist_ok=True)
@@ -625,11 +869,13 @@ def parse_answer(ans: str) -> dict:
         d[k] = v
     # trees contain spaces: re-split on the field names
     import re
-    m = re.match(r'model=(.*) spec=(.*) trig=(\S+) rel=(\d)$', ans)
+    m = re.match(r'model=(.*) spec=(.*) trig=(\S+) rel=(\d) chain=(\d) src=(\S*)$', ans)
     if not m:
         return {'bad': ans}
+    src = None if m.group(6) in ('-', '') else ''.join(chr(int(x)) for x in m.group(6).split(','))
     return {'model': lean_tree(m.group(1)), 'spec': lean_tree(m.group(2)),
-            'trig': [] if m.group(3) == '-' else m.group(3).split(','), 'rel': m.group(4)}
+            'trig': [] if m.group(3) == '-' else m.group(3).split(','), 'rel': m.group(4),
+            'chain': m.group(5), 'src': src}
 
 
 # ----------------------------------------------------------------------- correspondence (i)
@@ -667,6 +913,19 @@ def compare_tokens(run: Run, cases: list[tuple[str, list]], origin: str = 'gen')
                                       tags=a['trig']))
         elif ci != cm:
             run.disagree(Disagreement(case, ci, cm, cs, what='model', site='operator table'))
+        if a['chain'] != '1':
+            run.disagree(Disagreement(case, 'n/a', 'chain=0', what='source-text-not-separable',
+                                      site='model of XPathToken.source / lexeme model'))
+        if tok is not None and ci == cm and a['src'] is not None:
+            # tie of the textual source model: the Lean rendering of the tree is the real `source` string
+            try:
+                real_src = tok.source
+            except Exception as e:
+                real_src = f'ERR:OTHER:{type(e).__name__}'
+            st.count('source-text:compared')
+            if real_src != a['src']:
+                run.disagree(Disagreement(dict(case, real_source=real_src), real_src, a['src'], what='source-text-model',
+                                          site='XPathToken.source'))
         if tok is not None:
             roundtrip(run, ver, src, tok, impl)
 
@@ -981,6 +1240,45 @@ def permutation_pass(run: Run) -> None:
         st.extra.setdefault('custom_patterns', {})[v] = len(pats)
 
 
+def alternatives_pass(run: Run) -> None:
+    """tie of the tokenizer-alternative model: wherever a real custom pattern (compiled alone) matches in a
+    corpus text, the Lean `matchLen` of its `Alt` gives the same lexeme length"""
+    import re
+    info = alternatives()
+    st = run.stats
+    lines, expect = [], []
+    corpus = hash_corpus(run, run.scale(60, 600)) + [(v, s) for v in VERSIONS for s in
+                                                     ['Q{urn:x}a', 'map{1:2}', 'array{1}', 'map (: c :) {1:2}', 'attribute::a',
+                                                      'attribute(a)', 'child :: a', 'f\t(1)', 'a-b.c(1)', 'x-attribute(1)',
+                                                      'ancestor-or-self::node()', '$map{1}', 'array (1)', 'map(*)']]
+    for v in VERSIONS:
+        a = info[v]
+        if a['error']:
+            run.broken.append(f'translator:tokenizer-alternatives v{v}: {a["error"]}')
+            continue
+        for i, alt in enumerate(a['alts']):
+            rx = re.compile(alt['pattern'])
+            for vv, src in corpus:
+                if vv != v:
+                    continue
+                for pos in range(len(src)):
+                    m = rx.match(src, pos)
+                    if m is None or m.end() == pos:
+                        continue
+                    suffix = src[pos:m.end() + 2]
+                    lines.append(f'V={VNUM[v]} LEX={i} S=' + ','.join(str(ord(c)) for c in suffix))
+                    expect.append((v, alt['pattern'], src, pos, m.end() - pos))
+    seen = set()
+    uniq = [(l, e) for l, e in zip(lines, expect) if not (l in seen or seen.add(l))]
+    answers = run.driver('C04', [l for l, _ in uniq])
+    for (line, (v, pat, src, pos, n)), ans in zip(uniq, answers):
+        st.evaluations += 1
+        st.count('tokenizer-alternative-matches')
+        if ans != f'len={n}':
+            run.disagree(Disagreement({'version': v, 'pattern': pat, 'source': src, 'offset': pos, 'line': line},
+                                      f'len={n}', ans, what='tokenizer-alternative-model', site='custom token patterns'))
+
+
 # -------------------------------------------------------------------------------- corpus
 def sym_toks(V: VInfo, spec: list) -> list:
     """['n1', '=', 'n2', ...] -> tokens (operators by symbol)"""
@@ -1240,6 +1538,7 @@ def correspond(run: Run) -> None:
                         roundtrip(run, v, s, tok, d)
     expected_pass(run)
     options_pass(run, cases)
+    alternatives_pass(run)
     hashseed_pass(run)
     permutation_pass(run)
 
@@ -1352,7 +1651,7 @@ def body(run: Run) -> int:
     run.assumptions += ['operands are abstract: which primary expressions may occur as path steps or call targets is outside the level table',
                         'lexical constraint xgc:occurrence-indicators (type followed by + * ?) is outside the level table',
                         'observation is the syntactic phase tdop.Parser.parse; static evaluation in XPath1Parser.parse is not part of C04']
-    run.prove(['EPV.Props.C04', 'EPV.Props.C04Tables'], ['EPV.Lemmas.PrattTables', 'EPV.Lemmas.PrattComplete'])
+    run.prove(['EPV.Props.C04', 'EPV.Props.C04Tables'], ['EPV.Lemmas.PrattTables', 'EPV.Lemmas.PrattComplete', 'EPV.Model.PrattLexer', 'EPV.Lemmas.PrattSource'])
     try:
         correspond(run)
     except DriverError as e:
